@@ -181,6 +181,8 @@ def catalog_rows():
     for line in (REPO / 'tests' / 'tests_tables' / 'test_run_fast.csv').read_text().splitlines():
         f = [x.strip() for x in line.split(',')]
         if len(f) >= 6 and f[0] in comp:
+            if (f[2] and not (REPO / f[2]).exists()) or (f[3] and not (REPO / f[3]).exists()):
+                continue  # an input that only exists after the repository's own test run (tests/compiled/...) in a fresh tree
             inp = (REPO / f[2]).read_bytes() if f[2] else b''
             out = (REPO / f[3]).read_bytes() if f[3] else b''
             if f[2] and f[4] != 'True':
